@@ -21,6 +21,12 @@ func fieldVal[T any](obj yobj, key string) (v T, ok bool, err error) {
 	}
 
 	if val == nil {
+		if _, isObj := any(v).(yobj); isObj {
+			// A null object has no fields to migrate and can't be written to,
+			// so consider it absent.
+			return v, false, nil
+		}
+
 		return v, true, nil
 	}
 
